@@ -206,7 +206,8 @@ func c18GenTree(r *core.Rand) *tree.Tree {
 	if r.P(1, 5) { // chain
 		d := core.Pick(r, dirs)
 		k := r.Range(2, 6)
-		if r.P(1, 12) {
+		if r.P(1, 6) {
+			// around the 40-link limit (the kernel fails on the 41st link)
 			k = r.Range(38, 43)
 		}
 		for i := 0; i < k; i++ {
@@ -257,6 +258,13 @@ func c18GenRequests(r *core.Rand, t *tree.Tree) []string {
 	n := r.Weighted([]int{0, 5, 5, 3, 2})
 	var out []string
 	idx := refs.Index(t)
+	// a long chain is requested near its head, so that the walk crosses
+	// 37..43 links: the limit itself is part of what is explored
+	for _, e := range t.Entries {
+		if e.Type == tree.Symlink && tree.Base(e.Path) == "ch37" && r.P(3, 4) {
+			out = append(out, joinRel(tree.Parent(e.Path), fmt.Sprintf("ch%d", r.Intn(4))))
+		}
+	}
 	for len(out) < n {
 		var q string
 		switch r.Weighted([]int{4, 8, 5, 2, 4, 3, 1, 2}) {
